@@ -2,6 +2,8 @@
 From Coq Require Import List ZArith Bool.
 From NX Require Import Bytes Frame Reasm Reasm_proofs Codec Codec_proofs Family Family_proofs
   Pinned_comm Pinned_parse Pinned_parserecv.
+From Coq Require Import String.
+From NX Require PyLite Src_all Src_serialframe_proofs Src_reasm_proofs Src_reasm_generic.
 Import ListNotations.
 
 (** frame reassembly over an ARBITRARY codec that honours the interface laws
@@ -38,6 +40,38 @@ Theorem C20_laws_needed : lawful neg_codec /\
   krecv_all neg_codec [[85%N; 1%N]; [2%N]] <> Some (fst (kscan neg_codec [85%N; 1%N; 2%N]), []).
 Proof. split; [exact neg_codec_lawful|]. vm_compute. discriminate. Qed.
 
+(** ** on comm.py as it is now: CommHandler._read_hdr / _read_frame (regenerated abstract syntax,
+    PyLite interpreter, scripted link) with ANY codec object [cdc] in the parser.  [implements
+    cdc K kf]: the four things the client side uses of a codec - the hdr_len property,
+    hdr_find(data=...), hdr_decode(data=...), frame_decode(...) - behave, when interpreted, as
+    the codec record [K] says (results as DParseHdr / DParseFrame objects, the codec object
+    unchanged).  Then the client extracts, for every chunking, exactly the frames of one scan
+    with that codec's framing - the text of comm.py never looks at anything else of a codec. *)
+Section OnSource.
+Import PyLite Src_all Src_serialframe_proofs Src_reasm_proofs Src_reasm_generic.
+Open Scope string_scope.
+
+Theorem C20_read_frame_any_codec_src : forall cdc K kf, implements cdc K kf ->
+  forall fuel prev l,
+  (S (S (Nat.max kf (S (measure prev l)))) <= fuel)%nat ->
+  call_method program fuel (gch cdc prev l) "_read_frame" [] = gemb_frame_meth cdc (kread_frame K prev l).
+Proof. exact read_frame_gspec. Qed.
+
+Theorem C20_reassembly_any_codec_src : forall cdc K kf, implements cdc K kf ->
+  (forall d fid p, k_frame_decode K d = Frame.Ok (fid, p) -> known_id fid = true) ->
+  forall F chunks,
+  lawful2 K -> wf_link chunks ->
+  (S (S (Nat.max kf (S (List.length (List.concat chunks) + List.length chunks)))) <= F)%nat ->
+  exists rest, gsrc_recv_all cdc F chunks = Some (fst (kscan K (List.concat chunks)), rest).
+Proof. exact gsrc_recv_all_scan. Qed.
+
+(** not vacuous: the built-in codec object implements the built-in codec record *)
+Theorem C20_builtin_implements_src : implements sf serial_codec 3.
+Proof. exact sf_implements. Qed.
+End OnSource.
+
 Print Assumptions C20_reassembly_any_codec.
 Print Assumptions C20_family_lawful.
 Print Assumptions C20_family_reassembly.
+Print Assumptions C20_reassembly_any_codec_src.
+Print Assumptions C20_builtin_implements_src.
